@@ -180,12 +180,23 @@ def judge_discrete(name, values, res, add, mode="class"):
         cls = type("Plain", (), {f"f{i}": v for i, v in enumerate(values)})
     elif mode == "nodefault":
         cls = make_dataclass("Cat", [(f"f{i}", int) for i, _ in enumerate(values)])
+    elif mode == "classvar":
+        # class-level constants next to the category fields: ClassVar-annotated attributes are
+        # not dataclass fields, so they neither add categories nor fill gaps
+        from typing import ClassVar
+
+        flds = [(f"f{i}", object, v) for i, v in enumerate(values)]
+        k = len(values)
+        flds.insert(k // 2, ("n_things", ClassVar[int], k // 2))  # would fill a gap / duplicate a code
+        flds.append(("label", ClassVar[str], "health"))
+        flds.append(("upper", ClassVar[int], k))  # would extend 0..k-1 by one more code
+        cls = make_dataclass("Cat", flds)
     else:
         raise ValueError(mode)
     judged = all(isinstance(v, (int, float, bool)) and not isinstance(v, np.generic) for v in values) or any(
         v is None or isinstance(v, str) for v in values)
     should_accept = (
-        mode == "class" and len(values) >= 1
+        mode in ("class", "classvar") and len(values) >= 1
         and all(isinstance(v, (int, float, bool)) and not isinstance(v, np.generic) for v in values)
         and all((v == i) for i, v in enumerate(values))
     )
@@ -255,7 +266,7 @@ def run_case(case):
         res["sig"] = f"cont_random{case['seed']}"
     elif case["kind"] == "disc_exhaustive":
         for name, vals in _disc_pool():
-            for mode in ("class", "plain", "nodefault"):
+            for mode in ("class", "plain", "nodefault", "classvar"):
                 if mode == "nodefault" and not vals:
                     continue
                 judge_discrete(name, vals, res, add, mode)
